@@ -275,6 +275,18 @@ impl Dec for PositionDerivative {
         }
     }
 }
+impl Enc for MotionProfilePiece {
+    fn enc(&self) -> String {
+        match self {
+            MotionProfilePiece::BeforeStart => "BS",
+            MotionProfilePiece::InitialAcceleration => "IA",
+            MotionProfilePiece::ConstantVelocity => "CV",
+            MotionProfilePiece::EndAcceleration => "EA",
+            MotionProfilePiece::Complete => "CO",
+        }
+        .to_string()
+    }
+}
 impl Dec for MotionProfilePiece {
     fn dec(t: &str) -> R<Self> {
         match t {
@@ -392,6 +404,24 @@ impl Enc for NothingOrError<E> {
             Ok(()) => "ok".to_string(),
             Err(e) => f_err(e),
         }
+    }
+}
+impl Dec for NothingOrError<E> {
+    fn dec(t: &str) -> R<Self> {
+        if t == "ok" {
+            return Ok(Ok(()));
+        }
+        match p_err(t) {
+            Some(e) => Ok(Err(e?)),
+            None => Err(Bad),
+        }
+    }
+}
+/// `TerminalData`: `<time>~<Option<Command>>~<Option<State>>`
+#[cfg(feature = "devices")]
+impl Enc for TerminalData {
+    fn enc(&self) -> String {
+        format!("{}~{}~{}", self.time.0, self.command.enc(), self.state.enc())
     }
 }
 /// `Result<(),()>`: `ok` | `err`
